@@ -82,8 +82,8 @@ func selectFuncs(v *Verifier, funcs, props []string) []string {
 		want[f] = true
 	}
 	for name, c := range v.cf.Funcs {
-		if c.Trusted {
-			continue
+		if c.Trusted || (c.Inline && len(want) == 0) {
+			continue // trusted bodies are not verified; inlined bodies are verified in their callers' contexts
 		}
 		if len(want) > 0 {
 			if want[name] {
@@ -184,7 +184,7 @@ func cmdRun(args []string) {
 	t0 := time.Now()
 	fmt.Fprintf(os.Stderr, "load %.1fs\n", time.Since(tstart).Seconds())
 	results := verifyMany(v, names)
-	fmt.Fprintf(os.Stderr, "vcgen %.1fs\n", time.Since(t0).Seconds())
+	fmt.Fprintf(os.Stderr, "vcgen %.1fs feasibility-queries=%d\n", time.Since(t0).Seconds(), v.feasQueries)
 	var all []*Obligation
 	for _, r := range results {
 		all = append(all, r.Obls...)
@@ -194,7 +194,7 @@ func cmdRun(args []string) {
 	if e := os.Getenv("GOVC_WORKERS"); e != "" {
 		fmt.Sscan(e, &nw)
 	}
-	stats := solveAll(all, work, *timeout, nw, false)
+	stats, _ := solveResults(results, nil, work, *timeout, nw, false)
 	if !*keep {
 		defer os.RemoveAll(work)
 	}
@@ -228,7 +228,7 @@ func cmdRun(args []string) {
 	for fn, ws := range v.missing {
 		fmt.Printf("missing contracts: %s: %s\n", fn, strings.Join(ws, "; "))
 	}
-	fmt.Printf("functions=%d obligations(distinct proved)=%d queries=%d solver_ms=%d wall=%.1fs backends=%v\n", len(results), nproved, stats.queries, stats.totalMs, time.Since(t0).Seconds(), stats.byBackend)
+	fmt.Printf("functions=%d obligations(distinct proved)=%d queries=%d sessions=%d solver_ms=%d wall=%.1fs backends=%v\n", len(results), nproved, stats.queries, stats.sessions, stats.totalMs, time.Since(t0).Seconds(), stats.byBackend)
 }
 
 func trunc(s string, n int) string {
@@ -283,6 +283,13 @@ func aggregate(obls []*Obligation) []*AggObl {
 		if o.Solver != "" && (a.Solver == "" || a.Solver == "syntactic") {
 			a.Solver = o.Solver
 		}
+		if o.Kind == "cover" && strings.HasSuffix(o.Name, "#cover.return") {
+			// reachability guard: satisfied as soon as one return path is satisfiable
+			if a.Paths == 1 || (a.Status != "proved" && rank[o.Status] < rank[a.Status]) {
+				a.Status, a.Path, a.Output, a.Solver, a.failing = o.Status, o.Path, o.Output, o.Solver, o
+			}
+			continue
+		}
 		if rank[o.Status] > rank[a.Status] {
 			a.Status = o.Status
 			a.Path = o.Path
@@ -323,7 +330,7 @@ func cmdScript(args []string) {
 		os.MkdirAll(*all, 0755)
 		for _, o := range r.Obls {
 			if o.Name == name {
-				os.WriteFile(filepath.Join(*all, fmt.Sprintf("%d.smt2", k)), []byte("; path: "+o.Path+"\n"+o.Script), 0644)
+				os.WriteFile(filepath.Join(*all, fmt.Sprintf("%d.smt2", k)), []byte("; path: "+o.Path+"\n"+o.script()), 0644)
 				k++
 			}
 		}
@@ -333,7 +340,7 @@ func cmdScript(args []string) {
 	for _, o := range r.Obls {
 		if o.Name == name {
 			if k == *nth {
-				fmt.Print(o.Script)
+				fmt.Print(o.script())
 				return
 			}
 			k++
